@@ -114,7 +114,7 @@ def run(tier, seed, replay=None):
     gate = cm.proof_gate(['C14_'])
     exe_model = cm.build_model()
     exe_hook = cm.build_hook()
-    nb = 10 if tier == 'quick' else 120
+    nb = 15 if tier == 'quick' else 150
     if replay:
         rp = json.load(open(replay))
         if 'program' in rp:
@@ -124,7 +124,7 @@ def run(tier, seed, replay=None):
     jobs = []
     for i in range(nb):
         if i % 3 == 2:
-            c = c17.gen(rng)
+            c = c17.gen(rng, idx=i // 3)
             for label, msg, inv, fams in inherent_mutations(rng, c):
                 jobs.append(('inherent', c, label, msg, inv, fams))
         else:
